@@ -18,7 +18,7 @@ from ..namespace import namespace, staticproperty
 
 class PrevNode(ConfigScalar(str)):
     def __init__(self, ref, **kwargs):
-        super().__init__(ref)
+        super().__init__(ref, **kwargs)
 
     @namespace('ayns')
     def on_premerge_impl(self, path, into):
